@@ -1,6 +1,6 @@
 (* C18 correspondence: case type, corr (model = observed real map, including the internal dump digest)
    and holds (observed Len/Get/iteration/Flatten meet the abstract additive map). Executable only. *)
-From Coq Require Import List NArith Bool Arith.
+From Coq Require Import List NArith Bool Arith String Ascii FMapPositive.
 From GoProbe.Base Require Import CorrLib.
 From GoProbe.C18 Require Import Model.
 Import ListNotations.
@@ -23,14 +23,29 @@ Inductive op :=
 | OU (k : N) (v : val)                                  (* SetOrUpdate *)
 | OM (hint : N) (ht : list (N * N)) (ops : list op)     (* Merge(src), src = New(hint) + ops (OS/OU), own seed *)
 | OC (o : obs)                                          (* checkpoint *)
-| OCl.                                                  (* Clear *)
+| OCl                                                   (* Clear *)
+| OR (k0 n : N) (down : bool) (v : val).                (* n SetOrUpdate calls on ids k0, k0+1, .. (or k0-1, ..) *)
 
-Record case := Case {
-  c_hint : N;                 (* New(hint) *)
-  c_ht : list (N * N);        (* (key id, xxh3(key bytes, seed of the map)) *)
-  c_ops : list op;
-  c_panic : bool              (* the real run panicked in the last operation listed *)
-}.
+(* Case: hash given as a finite table.  CaseBig (large tables): key id k has the hash whose low `bits` bits are
+   those of k and whose top byte is the k-th byte of `tops` (two lower-case hex digits per id, ids from 1);
+   the harness realises this function with real keys whose xxh3 agrees on exactly these observable bits. *)
+Inductive case :=
+| Case (c_hint : N) (c_ht : list (N * N)) (c_ops : list op) (c_panic : bool)
+| CaseBig (hint bits : N) (tops : list string) (ops : list op) (panicked : bool).
+
+Definition hexv (a : ascii) : N := let n := N_of_ascii a in if (n <? 58)%N then (n - 48)%N else (n - 87)%N.
+Fixpoint tops_chunk (s : string) (st : positive * PositiveMap.t N) : positive * PositiveMap.t N :=
+  match s with
+  | String a (String b r) => tops_chunk r (Pos.succ (fst st), PositiveMap.add (fst st) (hexv a * 16 + hexv b)%N (snd st))
+  | _ => st
+  end.
+Definition tops_map (l : list string) : PositiveMap.t N :=
+  snd (fold_left (fun st s => tops_chunk s st) l (1%positive, PositiveMap.empty N)).
+Definition big_hash (bits : N) (tm : PositiveMap.t N) (k : N) : N :=
+  match k with
+  | N0 => 0%N
+  | Npos p => (N.land k (N.ones bits) + N.shiftl (match PositiveMap.find p tm with Some t => t | None => 0 end) 56)%N
+  end.
 
 Fixpoint hash_of (ht : list (N * N)) (k : N) : N :=
   match ht with
@@ -39,18 +54,20 @@ Fixpoint hash_of (ht : list (N * N)) (k : N) : N :=
   end.
 
 (* ---- digest of the internal state, mirrored by the harness over the real dump *)
-Definition P61 : N := 2305843009213693951%N.
-Definition mix (h x : N) : N := ((h * 1099511628211 + x mod P61) mod P61)%N.
-Definition dig_val (h : N) (v : val) : N := mix (mix (mix (mix h (v_a v)) (v_b v)) (v_c v)) (v_d v).
+Definition M61 : N := N.ones 61.
+Definition mix (h x : N) : N := N.land (h * 1000003 + x) M61.           (* cheap in N: small multiplier, mask *)
+Definition fv (x : N) : N := (N.land x M61 + N.shiftr x 61)%N.            (* a 64-bit counter folded below 2^62 *)
+Definition dig_val (h : N) (v : val) : N :=
+  mix (mix h (fv (v_a v) + 3 * fv (v_b v))) (fv (v_c v) + 3 * fv (v_d v)).
 Definition dig_slot (h : N) (s : slot) : N :=
   match s with
   | ERest => mix h 0 | EOne => mix h 1 | EvEmpty => mix h 4
-  | Full t k v => dig_val (mix (mix h t) k) v
-  | EvX k v => dig_val (mix (mix h 2) k) v
-  | EvY k v => dig_val (mix (mix h 3) k) v
+  | Full t k v => dig_val (mix h (t + 256 * k)) v
+  | EvX k v => dig_val (mix h (2 + 256 * k)) v
+  | EvY k v => dig_val (mix h (3 + 256 * k)) v
   end.
-Definition dig_chain (h : N) (c : chain) : N := fold_left dig_slot c (mix h (1000 + N.of_nat (length c))).
-Definition dig_table (h : N) (l : list chain) : N := fold_left dig_chain l (mix h (2000 + N.of_nat (length l))).
+Definition dig_chain (h : N) (c : chain) : N := fold_left dig_slot c (mix h (1000 + N.of_nat (List.length c))).
+Definition dig_table (h : N) (l : list chain) : N := fold_left dig_chain l (mix h (2000 + N.of_nat (List.length l))).
 Definition digest (m : hm) : N :=
   let h := dig_table 7 (bkts m) in
   match old m with None => mix h 5000 | Some ol => dig_table (mix h 5001) ol end.
@@ -81,17 +98,25 @@ Fixpoint run_plain (hash : N -> N) (m : res hm) (ops : list op) : res hm :=
     run_plain hash m' r
   end.
 
+Fixpoint run_range (hash : N -> N) (fuel : nat) (k : N) (down : bool) (v : val) (m : res hm) : res hm :=
+  match fuel with
+  | O => m
+  | S f => run_range hash f (if down then k - 1 else k + 1)%N down v (res_bind m (fun m => set_or_update hash m k v))
+  end.
+
 Definition check_obs (hash : N -> N) (m : hm) (o : obs) : bool :=
   (N.of_nat (count m) =? o_len o)%N
-  && (N.of_nat (length (bkts m)) =? o_nb o)%N
-  && (match old m with None => 0 | Some ol => N.of_nat (length ol) end =? o_old o)%N
+  && (N.of_nat (List.length (bkts m)) =? o_nb o)%N
+  && (match old m with None => 0 | Some ol => N.of_nat (List.length ol) end =? o_old o)%N
   && Bool.eqb (same_size m) (o_same o)
   && (N.of_nat (n_evac m) =? o_nevac o)%N
   && (N.of_nat (n_ovf m) =? o_novf o)%N
   && (digest m =? o_dig o)%N
   && forallb (fun '(k, r) => oval_eqb (get hash m k) r) (o_gets o)
-  && match o_iter o with Some l => kvs_eqb (iter hash m) l | None => true end
-  && Bool.eqb (rkvs_eqb (flatten hash m) (Ok (iter hash m))) (o_flat o).
+  && match o_iter o with     (* full checkpoints only: iteration is quadratic in the model on large tables *)
+     | Some l => kvs_eqb (iter hash m) l && Bool.eqb (rkvs_eqb (flatten hash m) (Ok (iter hash m))) (o_flat o)
+     | None => true
+     end.
 
 Fixpoint run_chk (hash : N -> N) (m : res hm) (ops : list op) : res hm * bool :=
   match ops with
@@ -105,6 +130,7 @@ Fixpoint run_chk (hash : N -> N) (m : res hm) (ops : list op) : res hm * bool :=
       let src := run_plain hs (Ok (new_hint (N.to_nat hint))) ops' in
       run_chk hash (res_bind m (fun m => res_bind src (fun s => merge hash hs m s))) r
     | OCl => run_chk hash (res_bind m (fun m => Ok (clear m))) r
+    | OR k0 n down v => run_chk hash (run_range hash (N.to_nat n) k0 down v m) r
     | OC ob =>
       match m with
       | Ok mm => let '(m', b) := run_chk hash m r in (m', check_obs hash mm ob && b)
@@ -115,8 +141,15 @@ Fixpoint run_chk (hash : N -> N) (m : res hm) (ops : list op) : res hm * bool :=
 
 (* does the model still describe the code? *)
 Definition corr (c : case) : bool :=
-  let '(m, b) := run_chk (hash_of (c_ht c)) (Ok (new_hint (N.to_nat (c_hint c)))) (c_ops c) in
-  b && match m with Ok _ => negb (c_panic c) | Panic => c_panic c | Err => false end.
+  match c with
+  | Case hint ht ops pk =>
+    let '(m, b) := run_chk (hash_of ht) (Ok (new_hint (N.to_nat hint))) ops in
+    b && match m with Ok _ => negb pk | Panic => pk | Err => false end
+  | CaseBig hint bits tops ops pk =>
+    let '(m, b) := run_chk (big_hash bits (tops_map tops))
+                           (Ok (new_hint (N.to_nat hint))) ops in
+    b && match m with Ok _ => negb pk | Panic => pk | Err => false end
+  end.
 
 (* ---- the specification: an association list sorted by key, counters summed per key *)
 Fixpoint sp_upd (f : option val -> val) (k : N) (l : list (N * val)) : list (N * val) :=
@@ -147,10 +180,16 @@ Fixpoint ins_sorted (e : N * val) (l : list (N * val)) : list (N * val) :=
 Definition sort_kvs (l : list (N * val)) : list (N * val) := fold_right ins_sorted [] l.
 
 Definition holds_obs (sp : list (N * val)) (o : obs) : bool :=
-  (o_len o =? N.of_nat (length sp))%N
+  (o_len o =? N.of_nat (List.length sp))%N
   && forallb (fun '(k, r) => oval_eqb (sp_get k sp) r) (o_gets o)
   && match o_iter o with Some l => kvs_eqb (sort_kvs l) sp | None => true end
   && o_flat o.
+
+Fixpoint sp_range (fuel : nat) (k : N) (down : bool) (v : val) (sp : list (N * val)) : list (N * val) :=
+  match fuel with
+  | O => sp
+  | S f => sp_range f (if down then k - 1 else k + 1)%N down v (sp_add k v sp)
+  end.
 
 Fixpoint holds_run (sp : list (N * val)) (ops : list op) : bool :=
   match ops with
@@ -161,7 +200,41 @@ Fixpoint holds_run (sp : list (N * val)) (ops : list op) : bool :=
     holds_run (fold_left (fun acc e => sp_add (fst e) (snd e) acc) (sp_plain [] ops') sp) r
   | OC o :: r => holds_obs sp o && holds_run sp r
   | OCl :: r => holds_run [] r
+  | OR k0 n down v :: r => holds_run (sp_range (N.to_nat n) k0 down v sp) r
+  end.
+
+(* large tables: the same specification on a positive-indexed map (Set / SetOrUpdate / ranges / Clear) *)
+Definition pm_get (k : N) (M : PositiveMap.t val) : option val :=
+  match k with Npos p => PositiveMap.find p M | N0 => None end.
+Definition pm_put (f : option val -> val) (k : N) (M : PositiveMap.t val) : PositiveMap.t val :=
+  match k with Npos p => PositiveMap.add p (f (PositiveMap.find p M)) M | N0 => M end.
+Definition pm_add (k : N) (d : val) := pm_put (fun o => match o with Some v => vadd v d | None => d end) k.
+Fixpoint pm_range (fuel : nat) (k : N) (down : bool) (v : val) (M : PositiveMap.t val) : PositiveMap.t val :=
+  match fuel with
+  | O => M
+  | S f => pm_range f (if down then k - 1 else k + 1)%N down v (pm_add k v M)
+  end.
+Definition holds_obs_big (M : PositiveMap.t val) (o : obs) : bool :=
+  (o_len o =? N.of_nat (PositiveMap.cardinal M))%N
+  && forallb (fun '(k, r) => oval_eqb (pm_get k M) r) (o_gets o)
+  && match o_iter o with
+     | Some l => kvs_eqb (sort_kvs l) (map (fun e => (Npos (fst e), snd e)) (PositiveMap.elements M))
+     | None => true end
+  && o_flat o.
+Fixpoint holds_big (M : PositiveMap.t val) (ops : list op) : bool :=
+  match ops with
+  | [] => true
+  | OS k v :: r => holds_big (pm_put (fun _ => v) k M) r
+  | OU k v :: r => holds_big (pm_add k v M) r
+  | OR k0 n down v :: r => holds_big (pm_range (N.to_nat n) k0 down v M) r
+  | OCl :: r => holds_big (PositiveMap.empty val) r
+  | OC o :: r => holds_obs_big M o && holds_big M r
+  | OM _ _ _ :: r => false
   end.
 
 (* does the observed behaviour satisfy the property? *)
-Definition holds (c : case) : bool := negb (c_panic c) && holds_run [] (c_ops c).
+Definition holds (c : case) : bool :=
+  match c with
+  | Case _ _ ops pk => negb pk && holds_run [] ops
+  | CaseBig _ _ _ ops pk => negb pk && holds_big (PositiveMap.empty val) ops
+  end.
